@@ -160,4 +160,62 @@ def propOf (dec : String → Bytes) (fields : List ScannedField) (p : SP) : Opti
     ⟨f, dec p.nodeType, dec p.tag, (parseD (dec p.tagVal)).1,
       if p.reqSet then Tag.setArg (parseD (dec p.tagVal)).2 Tag.kRequired [] else (parseD (dec p.tagVal)).2⟩
 
+/-! ### the two built-in ExtractHandlers (function literals in NewValueAwarePostProcessors / NewPropertiesAwarePostProcessors) -/
+
+/-- what the value handler is told: the field's `prop` tag, `strings2.IndexSkipBlocks(s, ",")`, and Go's slice expressions
+    `s[:i]` / `s[i:]` (`none` = the run-time panic of an out-of-range slice) -/
+structure VXOps where
+  lookup : Option String
+  idx : String → Int
+  sliceTo : String → Int → Option String
+  sliceFrom : String → Int → Option String
+
+/-- `fmt.Sprintf("${%s}%s", a, b)` -/
+def fmtProp (a b : String) : String := "${" ++ a ++ "}" ++ b
+
+def optStr : Option String → Option (Val × Unit)
+  | some s => some (.str s, ())
+  | none => none
+
+def vxFn (o : VXOps) : String → List Val → Unit → Option (Val × Unit)
+  | ".StructField", [.ref 0 60], w => some (.ref 0 61, w)
+  | ".Tag", [.ref 0 61], w => some (.ref 0 62, w)
+  | "$definition.PropTag", [], w => some (.ref 0 8, w)
+  | ".Lookup", [.ref 0 62, .ref 0 8], w =>
+      some (match o.lookup with
+            | some v => .tuple [.str v, .bool true]
+            | none => .tuple [.str "", .bool false], w)
+  | "strings2.IndexSkipBlocks", [.str s, .str ","], w => some (.int (o.idx s), w)
+  | "slice", [.str s, .nil, .int i], _ => optStr (o.sliceTo s i)
+  | "slice", [.str s, .int i, .nil], _ => optStr (o.sliceFrom s i)
+  | "fmt.Sprintf", [.str "${%s}%s", .str a, .str b], w => some (.str (fmtProp a b), w)
+  | _, _, _ => none
+
+def vxPrims (o : VXOps) : Prims Unit := { fn := vxFn o }
+
+/-- value_aware_post_processors.go:24-34; `none` = panic -/
+def valueExtractS (o : VXOps) : Option (String × String × Bool) :=
+  match o.lookup with
+  | none => some ("", "", false)
+  | some tv =>
+    if o.idx tv = -1 then some ("", fmtProp tv "", true)
+    else
+      match o.sliceTo tv (o.idx tv), o.sliceFrom tv (o.idx tv) with
+      | some k, some rest => some ("", fmtProp k rest, true)
+      | _, _ => none
+
+def encExtract : String × String × Bool → Val
+  | (t, tv, ok) => .tuple [.str t, .str tv, .bool ok]
+
+/-- `marker` = the field's value implements ConfigurationProperties, and what its `Prefix()` returns -/
+def mxFn (marker : Option String) : String → List Val → Unit → Option (Val × Unit)
+  | ".Value", [.ref 0 60], w => some (.ref 0 63, w)
+  | ".Interface", [.ref 0 63], w => some (.ref 0 64, w)
+  | "assert2:definition.ConfigurationProperties", [.ref 0 64], w =>
+      some (if marker.isSome then .tuple [.ref 0 65, .bool true] else .tuple [.nil, .bool false], w)
+  | ".Prefix", [.ref 0 65], w => marker.map (fun p => (.str p, w))
+  | _, _, _ => none
+
+def mxPrims (marker : Option String) : Prims Unit := { fn := mxFn marker }
+
 end Ioc.Sem
